@@ -9,8 +9,10 @@
 (*                                                                         *)
 (* Dev "ticket-published-after-cancelled-export" (F3): the worker         *)
 (* publishes the ForceFlush ticket after every cycle, also when that      *)
-(* cycle's export was cancelled for timeout.  With Dev = {} the ticket is *)
-(* published only if the cycle exported.                                   *)
+(* cycle's export was cancelled for timeout, and ForceFlush then returns  *)
+(* true.  With Dev = {} (the repaired code) a cancelled cycle also        *)
+(* records its ticket in cancelledSeq and a ForceFlush whose ticket is    *)
+(* not above cancelledSeq returns false (it still terminates).            *)
 (***************************************************************************)
 EXTENDS Integers, Sequences, FiniteSets, TLC
 
@@ -22,7 +24,7 @@ Inf      == 99
 
 (* --algorithm PeriodicReader {
 variables
-  pending = 0, notified = 0, forceWake = FALSE, shutdown = FALSE, latch = FALSE,
+  pending = 0, notified = 0, cancelledSeq = 0, forceWake = FALSE, shutdown = FALSE, latch = FALSE,
   ffm = -1, ctxLock = -1,
   wWaiting = FALSE, wSignalled = FALSE, fWaiting = {}, fSignalled = {},
   collGo = FALSE, collDone = FALSE, promiseReady = FALSE, cancel = FALSE, workerDone = FALSE,
@@ -44,7 +46,8 @@ fair process (worker = 0)
  C_wait:   either { await promiseReady; }           \* receiver.wait_for(...) == ready
            or     { cancel := TRUE; };               \* ... == timeout: cancel_export_for_timeout := true
  C_join:   await collDone;                            \* task_thread->join()
- N_load:   if (Dev = {} /\ ~exportedCycle) { goto W_pred; } else { ns := notified; };
+ N_cancel: if (Dev = {} /\ cancel) { cancelledSeq := t; };   \* repaired code only
+ N_load:   ns := notified;
  N_loop:   while (t > ns) {
              if (notified = ns) { notified := t; } else { ns := notified; };
  N_notify:   fSignalled := fSignalled \cup fWaiting; fWaiting := {};
@@ -113,7 +116,7 @@ fair process (flush \in Flushers)
              ffOK[self] := TRUE;                      \* exporter_->ForceFlush(...) invoked
              either { skip; } or { res := FALSE; };    \* its result
            } else { res := FALSE; };
- F_ret:    ffRes[self] := IF res /\ notified >= my THEN "true" ELSE "false";
+ F_ret:    ffRes[self] := IF res /\ notified >= my /\ (Dev # {} \/ cancelledSeq < my) THEN "true" ELSE "false";
            ffm := -1;
  F_unctx:  ctxLock := -1;
 }
@@ -131,23 +134,26 @@ fair process (shut \in Shuts)
 }
 } *)
 \* BEGIN TRANSLATION
-VARIABLES pc, pending, notified, forceWake, shutdown, latch, ffm, ctxLock, 
-          wWaiting, wSignalled, fWaiting, fSignalled, collGo, collDone, 
-          promiseReady, cancel, workerDone, recorded, inExport, overlap, 
-          lateExport, sdReturned, expSD, exportedCycle, ffSnap, ffExported, 
-          ffOK, ffRes, t, ns, snap, i, my, lp, budget, res, timedout
+VARIABLES pc, pending, notified, cancelledSeq, forceWake, shutdown, latch, 
+          ffm, ctxLock, wWaiting, wSignalled, fWaiting, fSignalled, collGo, 
+          collDone, promiseReady, cancel, workerDone, recorded, inExport, 
+          overlap, lateExport, sdReturned, expSD, exportedCycle, ffSnap, 
+          ffExported, ffOK, ffRes, t, ns, snap, i, my, lp, budget, res, 
+          timedout
 
-vars == << pc, pending, notified, forceWake, shutdown, latch, ffm, ctxLock, 
-           wWaiting, wSignalled, fWaiting, fSignalled, collGo, collDone, 
-           promiseReady, cancel, workerDone, recorded, inExport, overlap, 
-           lateExport, sdReturned, expSD, exportedCycle, ffSnap, ffExported, 
-           ffOK, ffRes, t, ns, snap, i, my, lp, budget, res, timedout >>
+vars == << pc, pending, notified, cancelledSeq, forceWake, shutdown, latch, 
+           ffm, ctxLock, wWaiting, wSignalled, fWaiting, fSignalled, collGo, 
+           collDone, promiseReady, cancel, workerDone, recorded, inExport, 
+           overlap, lateExport, sdReturned, expSD, exportedCycle, ffSnap, 
+           ffExported, ffOK, ffRes, t, ns, snap, i, my, lp, budget, res, 
+           timedout >>
 
 ProcSet == {0} \cup {1} \cup {2} \cup (Flushers) \cup (Shuts)
 
 Init == (* Global variables *)
         /\ pending = 0
         /\ notified = 0
+        /\ cancelledSeq = 0
         /\ forceWake = FALSE
         /\ shutdown = FALSE
         /\ latch = FALSE
@@ -195,13 +201,13 @@ Init == (* Global variables *)
 C_ticket == /\ pc[0] = "C_ticket"
             /\ t' = pending
             /\ pc' = [pc EXCEPT ![0] = "C_spawn"]
-            /\ UNCHANGED << pending, notified, forceWake, shutdown, latch, ffm, 
-                            ctxLock, wWaiting, wSignalled, fWaiting, 
-                            fSignalled, collGo, collDone, promiseReady, cancel, 
-                            workerDone, recorded, inExport, overlap, 
-                            lateExport, sdReturned, expSD, exportedCycle, 
-                            ffSnap, ffExported, ffOK, ffRes, ns, snap, i, my, 
-                            lp, budget, res, timedout >>
+            /\ UNCHANGED << pending, notified, cancelledSeq, forceWake, 
+                            shutdown, latch, ffm, ctxLock, wWaiting, 
+                            wSignalled, fWaiting, fSignalled, collGo, collDone, 
+                            promiseReady, cancel, workerDone, recorded, 
+                            inExport, overlap, lateExport, sdReturned, expSD, 
+                            exportedCycle, ffSnap, ffExported, ffOK, ffRes, ns, 
+                            snap, i, my, lp, budget, res, timedout >>
 
 C_spawn == /\ pc[0] = "C_spawn"
            /\ cancel' = FALSE
@@ -210,46 +216,61 @@ C_spawn == /\ pc[0] = "C_spawn"
            /\ exportedCycle' = FALSE
            /\ collGo' = TRUE
            /\ pc' = [pc EXCEPT ![0] = "C_wait"]
-           /\ UNCHANGED << pending, notified, forceWake, shutdown, latch, ffm, 
-                           ctxLock, wWaiting, wSignalled, fWaiting, fSignalled, 
-                           workerDone, recorded, inExport, overlap, lateExport, 
-                           sdReturned, expSD, ffSnap, ffExported, ffOK, ffRes, 
-                           t, ns, snap, i, my, lp, budget, res, timedout >>
+           /\ UNCHANGED << pending, notified, cancelledSeq, forceWake, 
+                           shutdown, latch, ffm, ctxLock, wWaiting, wSignalled, 
+                           fWaiting, fSignalled, workerDone, recorded, 
+                           inExport, overlap, lateExport, sdReturned, expSD, 
+                           ffSnap, ffExported, ffOK, ffRes, t, ns, snap, i, my, 
+                           lp, budget, res, timedout >>
 
 C_wait == /\ pc[0] = "C_wait"
           /\ \/ /\ promiseReady
                 /\ UNCHANGED cancel
              \/ /\ cancel' = TRUE
           /\ pc' = [pc EXCEPT ![0] = "C_join"]
-          /\ UNCHANGED << pending, notified, forceWake, shutdown, latch, ffm, 
-                          ctxLock, wWaiting, wSignalled, fWaiting, fSignalled, 
-                          collGo, collDone, promiseReady, workerDone, recorded, 
-                          inExport, overlap, lateExport, sdReturned, expSD, 
-                          exportedCycle, ffSnap, ffExported, ffOK, ffRes, t, 
-                          ns, snap, i, my, lp, budget, res, timedout >>
+          /\ UNCHANGED << pending, notified, cancelledSeq, forceWake, shutdown, 
+                          latch, ffm, ctxLock, wWaiting, wSignalled, fWaiting, 
+                          fSignalled, collGo, collDone, promiseReady, 
+                          workerDone, recorded, inExport, overlap, lateExport, 
+                          sdReturned, expSD, exportedCycle, ffSnap, ffExported, 
+                          ffOK, ffRes, t, ns, snap, i, my, lp, budget, res, 
+                          timedout >>
 
 C_join == /\ pc[0] = "C_join"
           /\ collDone
-          /\ pc' = [pc EXCEPT ![0] = "N_load"]
-          /\ UNCHANGED << pending, notified, forceWake, shutdown, latch, ffm, 
-                          ctxLock, wWaiting, wSignalled, fWaiting, fSignalled, 
-                          collGo, collDone, promiseReady, cancel, workerDone, 
-                          recorded, inExport, overlap, lateExport, sdReturned, 
-                          expSD, exportedCycle, ffSnap, ffExported, ffOK, 
-                          ffRes, t, ns, snap, i, my, lp, budget, res, timedout >>
+          /\ pc' = [pc EXCEPT ![0] = "N_cancel"]
+          /\ UNCHANGED << pending, notified, cancelledSeq, forceWake, shutdown, 
+                          latch, ffm, ctxLock, wWaiting, wSignalled, fWaiting, 
+                          fSignalled, collGo, collDone, promiseReady, cancel, 
+                          workerDone, recorded, inExport, overlap, lateExport, 
+                          sdReturned, expSD, exportedCycle, ffSnap, ffExported, 
+                          ffOK, ffRes, t, ns, snap, i, my, lp, budget, res, 
+                          timedout >>
+
+N_cancel == /\ pc[0] = "N_cancel"
+            /\ IF Dev = {} /\ cancel
+                  THEN /\ cancelledSeq' = t
+                  ELSE /\ TRUE
+                       /\ UNCHANGED cancelledSeq
+            /\ pc' = [pc EXCEPT ![0] = "N_load"]
+            /\ UNCHANGED << pending, notified, forceWake, shutdown, latch, ffm, 
+                            ctxLock, wWaiting, wSignalled, fWaiting, 
+                            fSignalled, collGo, collDone, promiseReady, cancel, 
+                            workerDone, recorded, inExport, overlap, 
+                            lateExport, sdReturned, expSD, exportedCycle, 
+                            ffSnap, ffExported, ffOK, ffRes, t, ns, snap, i, 
+                            my, lp, budget, res, timedout >>
 
 N_load == /\ pc[0] = "N_load"
-          /\ IF Dev = {} /\ ~exportedCycle
-                THEN /\ pc' = [pc EXCEPT ![0] = "W_pred"]
-                     /\ ns' = ns
-                ELSE /\ ns' = notified
-                     /\ pc' = [pc EXCEPT ![0] = "N_loop"]
-          /\ UNCHANGED << pending, notified, forceWake, shutdown, latch, ffm, 
-                          ctxLock, wWaiting, wSignalled, fWaiting, fSignalled, 
-                          collGo, collDone, promiseReady, cancel, workerDone, 
-                          recorded, inExport, overlap, lateExport, sdReturned, 
-                          expSD, exportedCycle, ffSnap, ffExported, ffOK, 
-                          ffRes, t, snap, i, my, lp, budget, res, timedout >>
+          /\ ns' = notified
+          /\ pc' = [pc EXCEPT ![0] = "N_loop"]
+          /\ UNCHANGED << pending, notified, cancelledSeq, forceWake, shutdown, 
+                          latch, ffm, ctxLock, wWaiting, wSignalled, fWaiting, 
+                          fSignalled, collGo, collDone, promiseReady, cancel, 
+                          workerDone, recorded, inExport, overlap, lateExport, 
+                          sdReturned, expSD, exportedCycle, ffSnap, ffExported, 
+                          ffOK, ffRes, t, snap, i, my, lp, budget, res, 
+                          timedout >>
 
 N_loop == /\ pc[0] = "N_loop"
           /\ IF t > ns
@@ -261,68 +282,72 @@ N_loop == /\ pc[0] = "N_loop"
                      /\ pc' = [pc EXCEPT ![0] = "N_notify"]
                 ELSE /\ pc' = [pc EXCEPT ![0] = "W_pred"]
                      /\ UNCHANGED << notified, ns >>
-          /\ UNCHANGED << pending, forceWake, shutdown, latch, ffm, ctxLock, 
-                          wWaiting, wSignalled, fWaiting, fSignalled, collGo, 
-                          collDone, promiseReady, cancel, workerDone, recorded, 
-                          inExport, overlap, lateExport, sdReturned, expSD, 
-                          exportedCycle, ffSnap, ffExported, ffOK, ffRes, t, 
-                          snap, i, my, lp, budget, res, timedout >>
+          /\ UNCHANGED << pending, cancelledSeq, forceWake, shutdown, latch, 
+                          ffm, ctxLock, wWaiting, wSignalled, fWaiting, 
+                          fSignalled, collGo, collDone, promiseReady, cancel, 
+                          workerDone, recorded, inExport, overlap, lateExport, 
+                          sdReturned, expSD, exportedCycle, ffSnap, ffExported, 
+                          ffOK, ffRes, t, snap, i, my, lp, budget, res, 
+                          timedout >>
 
 N_notify == /\ pc[0] = "N_notify"
             /\ fSignalled' = (fSignalled \cup fWaiting)
             /\ fWaiting' = {}
             /\ pc' = [pc EXCEPT ![0] = "N_loop"]
-            /\ UNCHANGED << pending, notified, forceWake, shutdown, latch, ffm, 
-                            ctxLock, wWaiting, wSignalled, collGo, collDone, 
-                            promiseReady, cancel, workerDone, recorded, 
-                            inExport, overlap, lateExport, sdReturned, expSD, 
-                            exportedCycle, ffSnap, ffExported, ffOK, ffRes, t, 
-                            ns, snap, i, my, lp, budget, res, timedout >>
+            /\ UNCHANGED << pending, notified, cancelledSeq, forceWake, 
+                            shutdown, latch, ffm, ctxLock, wWaiting, 
+                            wSignalled, collGo, collDone, promiseReady, cancel, 
+                            workerDone, recorded, inExport, overlap, 
+                            lateExport, sdReturned, expSD, exportedCycle, 
+                            ffSnap, ffExported, ffOK, ffRes, t, ns, snap, i, 
+                            my, lp, budget, res, timedout >>
 
 W_pred == /\ pc[0] = "W_pred"
           /\ IF forceWake
                 THEN /\ pc' = [pc EXCEPT ![0] = "W_clear"]
                 ELSE /\ pc' = [pc EXCEPT ![0] = "W_pred2"]
-          /\ UNCHANGED << pending, notified, forceWake, shutdown, latch, ffm, 
-                          ctxLock, wWaiting, wSignalled, fWaiting, fSignalled, 
-                          collGo, collDone, promiseReady, cancel, workerDone, 
-                          recorded, inExport, overlap, lateExport, sdReturned, 
-                          expSD, exportedCycle, ffSnap, ffExported, ffOK, 
-                          ffRes, t, ns, snap, i, my, lp, budget, res, timedout >>
+          /\ UNCHANGED << pending, notified, cancelledSeq, forceWake, shutdown, 
+                          latch, ffm, ctxLock, wWaiting, wSignalled, fWaiting, 
+                          fSignalled, collGo, collDone, promiseReady, cancel, 
+                          workerDone, recorded, inExport, overlap, lateExport, 
+                          sdReturned, expSD, exportedCycle, ffSnap, ffExported, 
+                          ffOK, ffRes, t, ns, snap, i, my, lp, budget, res, 
+                          timedout >>
 
 W_clear == /\ pc[0] = "W_clear"
            /\ forceWake' = FALSE
            /\ pc' = [pc EXCEPT ![0] = "W_chk"]
-           /\ UNCHANGED << pending, notified, shutdown, latch, ffm, ctxLock, 
-                           wWaiting, wSignalled, fWaiting, fSignalled, collGo, 
-                           collDone, promiseReady, cancel, workerDone, 
-                           recorded, inExport, overlap, lateExport, sdReturned, 
-                           expSD, exportedCycle, ffSnap, ffExported, ffOK, 
-                           ffRes, t, ns, snap, i, my, lp, budget, res, 
-                           timedout >>
+           /\ UNCHANGED << pending, notified, cancelledSeq, shutdown, latch, 
+                           ffm, ctxLock, wWaiting, wSignalled, fWaiting, 
+                           fSignalled, collGo, collDone, promiseReady, cancel, 
+                           workerDone, recorded, inExport, overlap, lateExport, 
+                           sdReturned, expSD, exportedCycle, ffSnap, 
+                           ffExported, ffOK, ffRes, t, ns, snap, i, my, lp, 
+                           budget, res, timedout >>
 
 W_pred2 == /\ pc[0] = "W_pred2"
            /\ IF shutdown
                  THEN /\ pc' = [pc EXCEPT ![0] = "W_chk"]
                  ELSE /\ pc' = [pc EXCEPT ![0] = "W_block"]
-           /\ UNCHANGED << pending, notified, forceWake, shutdown, latch, ffm, 
-                           ctxLock, wWaiting, wSignalled, fWaiting, fSignalled, 
-                           collGo, collDone, promiseReady, cancel, workerDone, 
-                           recorded, inExport, overlap, lateExport, sdReturned, 
-                           expSD, exportedCycle, ffSnap, ffExported, ffOK, 
-                           ffRes, t, ns, snap, i, my, lp, budget, res, 
-                           timedout >>
+           /\ UNCHANGED << pending, notified, cancelledSeq, forceWake, 
+                           shutdown, latch, ffm, ctxLock, wWaiting, wSignalled, 
+                           fWaiting, fSignalled, collGo, collDone, 
+                           promiseReady, cancel, workerDone, recorded, 
+                           inExport, overlap, lateExport, sdReturned, expSD, 
+                           exportedCycle, ffSnap, ffExported, ffOK, ffRes, t, 
+                           ns, snap, i, my, lp, budget, res, timedout >>
 
 W_block == /\ pc[0] = "W_block"
            /\ wWaiting' = TRUE
            /\ wSignalled' = FALSE
            /\ pc' = [pc EXCEPT ![0] = "W_wake"]
-           /\ UNCHANGED << pending, notified, forceWake, shutdown, latch, ffm, 
-                           ctxLock, fWaiting, fSignalled, collGo, collDone, 
-                           promiseReady, cancel, workerDone, recorded, 
-                           inExport, overlap, lateExport, sdReturned, expSD, 
-                           exportedCycle, ffSnap, ffExported, ffOK, ffRes, t, 
-                           ns, snap, i, my, lp, budget, res, timedout >>
+           /\ UNCHANGED << pending, notified, cancelledSeq, forceWake, 
+                           shutdown, latch, ffm, ctxLock, fWaiting, fSignalled, 
+                           collGo, collDone, promiseReady, cancel, workerDone, 
+                           recorded, inExport, overlap, lateExport, sdReturned, 
+                           expSD, exportedCycle, ffSnap, ffExported, ffOK, 
+                           ffRes, t, ns, snap, i, my, lp, budget, res, 
+                           timedout >>
 
 W_wake == /\ pc[0] = "W_wake"
           /\ \/ /\ wSignalled
@@ -332,10 +357,10 @@ W_wake == /\ pc[0] = "W_wake"
              \/ /\ wWaiting' = FALSE
                 /\ wSignalled' = FALSE
                 /\ pc' = [pc EXCEPT ![0] = "W_chk"]
-          /\ UNCHANGED << pending, notified, forceWake, shutdown, latch, ffm, 
-                          ctxLock, fWaiting, fSignalled, collGo, collDone, 
-                          promiseReady, cancel, workerDone, recorded, inExport, 
-                          overlap, lateExport, sdReturned, expSD, 
+          /\ UNCHANGED << pending, notified, cancelledSeq, forceWake, shutdown, 
+                          latch, ffm, ctxLock, fWaiting, fSignalled, collGo, 
+                          collDone, promiseReady, cancel, workerDone, recorded, 
+                          inExport, overlap, lateExport, sdReturned, expSD, 
                           exportedCycle, ffSnap, ffExported, ffOK, ffRes, t, 
                           ns, snap, i, my, lp, budget, res, timedout >>
 
@@ -343,26 +368,27 @@ W_chk == /\ pc[0] = "W_chk"
          /\ IF ~shutdown
                THEN /\ pc' = [pc EXCEPT ![0] = "C_ticket"]
                ELSE /\ pc' = [pc EXCEPT ![0] = "W_exit"]
-         /\ UNCHANGED << pending, notified, forceWake, shutdown, latch, ffm, 
-                         ctxLock, wWaiting, wSignalled, fWaiting, fSignalled, 
-                         collGo, collDone, promiseReady, cancel, workerDone, 
-                         recorded, inExport, overlap, lateExport, sdReturned, 
-                         expSD, exportedCycle, ffSnap, ffExported, ffOK, ffRes, 
-                         t, ns, snap, i, my, lp, budget, res, timedout >>
+         /\ UNCHANGED << pending, notified, cancelledSeq, forceWake, shutdown, 
+                         latch, ffm, ctxLock, wWaiting, wSignalled, fWaiting, 
+                         fSignalled, collGo, collDone, promiseReady, cancel, 
+                         workerDone, recorded, inExport, overlap, lateExport, 
+                         sdReturned, expSD, exportedCycle, ffSnap, ffExported, 
+                         ffOK, ffRes, t, ns, snap, i, my, lp, budget, res, 
+                         timedout >>
 
 W_exit == /\ pc[0] = "W_exit"
           /\ workerDone' = TRUE
           /\ pc' = [pc EXCEPT ![0] = "Done"]
-          /\ UNCHANGED << pending, notified, forceWake, shutdown, latch, ffm, 
-                          ctxLock, wWaiting, wSignalled, fWaiting, fSignalled, 
-                          collGo, collDone, promiseReady, cancel, recorded, 
-                          inExport, overlap, lateExport, sdReturned, expSD, 
-                          exportedCycle, ffSnap, ffExported, ffOK, ffRes, t, 
-                          ns, snap, i, my, lp, budget, res, timedout >>
+          /\ UNCHANGED << pending, notified, cancelledSeq, forceWake, shutdown, 
+                          latch, ffm, ctxLock, wWaiting, wSignalled, fWaiting, 
+                          fSignalled, collGo, collDone, promiseReady, cancel, 
+                          recorded, inExport, overlap, lateExport, sdReturned, 
+                          expSD, exportedCycle, ffSnap, ffExported, ffOK, 
+                          ffRes, t, ns, snap, i, my, lp, budget, res, timedout >>
 
-worker == C_ticket \/ C_spawn \/ C_wait \/ C_join \/ N_load \/ N_loop
-             \/ N_notify \/ W_pred \/ W_clear \/ W_pred2 \/ W_block
-             \/ W_wake \/ W_chk \/ W_exit
+worker == C_ticket \/ C_spawn \/ C_wait \/ C_join \/ N_cancel \/ N_load
+             \/ N_loop \/ N_notify \/ W_pred \/ W_clear \/ W_pred2
+             \/ W_block \/ W_wake \/ W_chk \/ W_exit
 
 K_start == /\ pc[1] = "K_start"
            /\ collGo \/ workerDone
@@ -371,35 +397,37 @@ K_start == /\ pc[1] = "K_start"
                       /\ UNCHANGED collGo
                  ELSE /\ collGo' = FALSE
                       /\ pc' = [pc EXCEPT ![1] = "K_produce"]
-           /\ UNCHANGED << pending, notified, forceWake, shutdown, latch, ffm, 
-                           ctxLock, wWaiting, wSignalled, fWaiting, fSignalled, 
-                           collDone, promiseReady, cancel, workerDone, 
-                           recorded, inExport, overlap, lateExport, sdReturned, 
-                           expSD, exportedCycle, ffSnap, ffExported, ffOK, 
-                           ffRes, t, ns, snap, i, my, lp, budget, res, 
-                           timedout >>
+           /\ UNCHANGED << pending, notified, cancelledSeq, forceWake, 
+                           shutdown, latch, ffm, ctxLock, wWaiting, wSignalled, 
+                           fWaiting, fSignalled, collDone, promiseReady, 
+                           cancel, workerDone, recorded, inExport, overlap, 
+                           lateExport, sdReturned, expSD, exportedCycle, 
+                           ffSnap, ffExported, ffOK, ffRes, t, ns, snap, i, my, 
+                           lp, budget, res, timedout >>
 
 K_produce == /\ pc[1] = "K_produce"
              /\ snap' = recorded
              /\ pc' = [pc EXCEPT ![1] = "K_cb"]
-             /\ UNCHANGED << pending, notified, forceWake, shutdown, latch, 
-                             ffm, ctxLock, wWaiting, wSignalled, fWaiting, 
-                             fSignalled, collGo, collDone, promiseReady, 
-                             cancel, workerDone, recorded, inExport, overlap, 
-                             lateExport, sdReturned, expSD, exportedCycle, 
-                             ffSnap, ffExported, ffOK, ffRes, t, ns, i, my, lp, 
-                             budget, res, timedout >>
+             /\ UNCHANGED << pending, notified, cancelledSeq, forceWake, 
+                             shutdown, latch, ffm, ctxLock, wWaiting, 
+                             wSignalled, fWaiting, fSignalled, collGo, 
+                             collDone, promiseReady, cancel, workerDone, 
+                             recorded, inExport, overlap, lateExport, 
+                             sdReturned, expSD, exportedCycle, ffSnap, 
+                             ffExported, ffOK, ffRes, t, ns, i, my, lp, budget, 
+                             res, timedout >>
 
 K_cb == /\ pc[1] = "K_cb"
         /\ IF cancel
               THEN /\ pc' = [pc EXCEPT ![1] = "K_set"]
               ELSE /\ pc' = [pc EXCEPT ![1] = "K_export"]
-        /\ UNCHANGED << pending, notified, forceWake, shutdown, latch, ffm, 
-                        ctxLock, wWaiting, wSignalled, fWaiting, fSignalled, 
-                        collGo, collDone, promiseReady, cancel, workerDone, 
-                        recorded, inExport, overlap, lateExport, sdReturned, 
-                        expSD, exportedCycle, ffSnap, ffExported, ffOK, ffRes, 
-                        t, ns, snap, i, my, lp, budget, res, timedout >>
+        /\ UNCHANGED << pending, notified, cancelledSeq, forceWake, shutdown, 
+                        latch, ffm, ctxLock, wWaiting, wSignalled, fWaiting, 
+                        fSignalled, collGo, collDone, promiseReady, cancel, 
+                        workerDone, recorded, inExport, overlap, lateExport, 
+                        sdReturned, expSD, exportedCycle, ffSnap, ffExported, 
+                        ffOK, ffRes, t, ns, snap, i, my, lp, budget, res, 
+                        timedout >>
 
 K_export == /\ pc[1] = "K_export"
             /\ overlap' = (overlap \/ inExport)
@@ -408,53 +436,54 @@ K_export == /\ pc[1] = "K_export"
             /\ exportedCycle' = TRUE
             /\ ffExported' = [f \in Flushers |-> ffExported[f] \/ (ffRes[f] = "called" /\ snap >= ffSnap[f])]
             /\ pc' = [pc EXCEPT ![1] = "K_expend"]
-            /\ UNCHANGED << pending, notified, forceWake, shutdown, latch, ffm, 
-                            ctxLock, wWaiting, wSignalled, fWaiting, 
-                            fSignalled, collGo, collDone, promiseReady, cancel, 
-                            workerDone, recorded, sdReturned, expSD, ffSnap, 
-                            ffOK, ffRes, t, ns, snap, i, my, lp, budget, res, 
-                            timedout >>
+            /\ UNCHANGED << pending, notified, cancelledSeq, forceWake, 
+                            shutdown, latch, ffm, ctxLock, wWaiting, 
+                            wSignalled, fWaiting, fSignalled, collGo, collDone, 
+                            promiseReady, cancel, workerDone, recorded, 
+                            sdReturned, expSD, ffSnap, ffOK, ffRes, t, ns, 
+                            snap, i, my, lp, budget, res, timedout >>
 
 K_expend == /\ pc[1] = "K_expend"
             /\ inExport' = FALSE
             /\ pc' = [pc EXCEPT ![1] = "K_set"]
-            /\ UNCHANGED << pending, notified, forceWake, shutdown, latch, ffm, 
-                            ctxLock, wWaiting, wSignalled, fWaiting, 
-                            fSignalled, collGo, collDone, promiseReady, cancel, 
-                            workerDone, recorded, overlap, lateExport, 
-                            sdReturned, expSD, exportedCycle, ffSnap, 
-                            ffExported, ffOK, ffRes, t, ns, snap, i, my, lp, 
-                            budget, res, timedout >>
+            /\ UNCHANGED << pending, notified, cancelledSeq, forceWake, 
+                            shutdown, latch, ffm, ctxLock, wWaiting, 
+                            wSignalled, fWaiting, fSignalled, collGo, collDone, 
+                            promiseReady, cancel, workerDone, recorded, 
+                            overlap, lateExport, sdReturned, expSD, 
+                            exportedCycle, ffSnap, ffExported, ffOK, ffRes, t, 
+                            ns, snap, i, my, lp, budget, res, timedout >>
 
 K_set == /\ pc[1] = "K_set"
          /\ promiseReady' = TRUE
          /\ pc' = [pc EXCEPT ![1] = "K_done"]
-         /\ UNCHANGED << pending, notified, forceWake, shutdown, latch, ffm, 
-                         ctxLock, wWaiting, wSignalled, fWaiting, fSignalled, 
-                         collGo, collDone, cancel, workerDone, recorded, 
-                         inExport, overlap, lateExport, sdReturned, expSD, 
-                         exportedCycle, ffSnap, ffExported, ffOK, ffRes, t, ns, 
-                         snap, i, my, lp, budget, res, timedout >>
+         /\ UNCHANGED << pending, notified, cancelledSeq, forceWake, shutdown, 
+                         latch, ffm, ctxLock, wWaiting, wSignalled, fWaiting, 
+                         fSignalled, collGo, collDone, cancel, workerDone, 
+                         recorded, inExport, overlap, lateExport, sdReturned, 
+                         expSD, exportedCycle, ffSnap, ffExported, ffOK, ffRes, 
+                         t, ns, snap, i, my, lp, budget, res, timedout >>
 
 K_done == /\ pc[1] = "K_done"
           /\ collDone' = TRUE
           /\ pc' = [pc EXCEPT ![1] = "K_start"]
-          /\ UNCHANGED << pending, notified, forceWake, shutdown, latch, ffm, 
-                          ctxLock, wWaiting, wSignalled, fWaiting, fSignalled, 
-                          collGo, promiseReady, cancel, workerDone, recorded, 
-                          inExport, overlap, lateExport, sdReturned, expSD, 
-                          exportedCycle, ffSnap, ffExported, ffOK, ffRes, t, 
-                          ns, snap, i, my, lp, budget, res, timedout >>
+          /\ UNCHANGED << pending, notified, cancelledSeq, forceWake, shutdown, 
+                          latch, ffm, ctxLock, wWaiting, wSignalled, fWaiting, 
+                          fSignalled, collGo, promiseReady, cancel, workerDone, 
+                          recorded, inExport, overlap, lateExport, sdReturned, 
+                          expSD, exportedCycle, ffSnap, ffExported, ffOK, 
+                          ffRes, t, ns, snap, i, my, lp, budget, res, timedout >>
 
 K_end == /\ pc[1] = "K_end"
          /\ TRUE
          /\ pc' = [pc EXCEPT ![1] = "Done"]
-         /\ UNCHANGED << pending, notified, forceWake, shutdown, latch, ffm, 
-                         ctxLock, wWaiting, wSignalled, fWaiting, fSignalled, 
-                         collGo, collDone, promiseReady, cancel, workerDone, 
-                         recorded, inExport, overlap, lateExport, sdReturned, 
-                         expSD, exportedCycle, ffSnap, ffExported, ffOK, ffRes, 
-                         t, ns, snap, i, my, lp, budget, res, timedout >>
+         /\ UNCHANGED << pending, notified, cancelledSeq, forceWake, shutdown, 
+                         latch, ffm, ctxLock, wWaiting, wSignalled, fWaiting, 
+                         fSignalled, collGo, collDone, promiseReady, cancel, 
+                         workerDone, recorded, inExport, overlap, lateExport, 
+                         sdReturned, expSD, exportedCycle, ffSnap, ffExported, 
+                         ffOK, ffRes, t, ns, snap, i, my, lp, budget, res, 
+                         timedout >>
 
 collector == K_start \/ K_produce \/ K_cb \/ K_export \/ K_expend \/ K_set
                 \/ K_done \/ K_end
@@ -466,12 +495,13 @@ R_loop == /\ pc[2] = "R_loop"
                      /\ pc' = [pc EXCEPT ![2] = "R_loop"]
                 ELSE /\ pc' = [pc EXCEPT ![2] = "Done"]
                      /\ UNCHANGED << recorded, i >>
-          /\ UNCHANGED << pending, notified, forceWake, shutdown, latch, ffm, 
-                          ctxLock, wWaiting, wSignalled, fWaiting, fSignalled, 
-                          collGo, collDone, promiseReady, cancel, workerDone, 
-                          inExport, overlap, lateExport, sdReturned, expSD, 
-                          exportedCycle, ffSnap, ffExported, ffOK, ffRes, t, 
-                          ns, snap, my, lp, budget, res, timedout >>
+          /\ UNCHANGED << pending, notified, cancelledSeq, forceWake, shutdown, 
+                          latch, ffm, ctxLock, wWaiting, wSignalled, fWaiting, 
+                          fSignalled, collGo, collDone, promiseReady, cancel, 
+                          workerDone, inExport, overlap, lateExport, 
+                          sdReturned, expSD, exportedCycle, ffSnap, ffExported, 
+                          ffOK, ffRes, t, ns, snap, my, lp, budget, res, 
+                          timedout >>
 
 recorder == R_loop
 
@@ -479,49 +509,52 @@ F_call(self) == /\ pc[self] = "F_call"
                 /\ ffSnap' = [ffSnap EXCEPT ![self] = recorded]
                 /\ ffRes' = [ffRes EXCEPT ![self] = "called"]
                 /\ pc' = [pc EXCEPT ![self] = "F_ctx"]
-                /\ UNCHANGED << pending, notified, forceWake, shutdown, latch, 
-                                ffm, ctxLock, wWaiting, wSignalled, fWaiting, 
-                                fSignalled, collGo, collDone, promiseReady, 
-                                cancel, workerDone, recorded, inExport, 
-                                overlap, lateExport, sdReturned, expSD, 
-                                exportedCycle, ffExported, ffOK, t, ns, snap, 
-                                i, my, lp, budget, res, timedout >>
+                /\ UNCHANGED << pending, notified, cancelledSeq, forceWake, 
+                                shutdown, latch, ffm, ctxLock, wWaiting, 
+                                wSignalled, fWaiting, fSignalled, collGo, 
+                                collDone, promiseReady, cancel, workerDone, 
+                                recorded, inExport, overlap, lateExport, 
+                                sdReturned, expSD, exportedCycle, ffExported, 
+                                ffOK, t, ns, snap, i, my, lp, budget, res, 
+                                timedout >>
 
 F_ctx(self) == /\ pc[self] = "F_ctx"
                /\ ctxLock = -1
                /\ ctxLock' = self
                /\ pc' = [pc EXCEPT ![self] = "F_lock"]
-               /\ UNCHANGED << pending, notified, forceWake, shutdown, latch, 
-                               ffm, wWaiting, wSignalled, fWaiting, fSignalled, 
-                               collGo, collDone, promiseReady, cancel, 
-                               workerDone, recorded, inExport, overlap, 
-                               lateExport, sdReturned, expSD, exportedCycle, 
-                               ffSnap, ffExported, ffOK, ffRes, t, ns, snap, i, 
-                               my, lp, budget, res, timedout >>
+               /\ UNCHANGED << pending, notified, cancelledSeq, forceWake, 
+                               shutdown, latch, ffm, wWaiting, wSignalled, 
+                               fWaiting, fSignalled, collGo, collDone, 
+                               promiseReady, cancel, workerDone, recorded, 
+                               inExport, overlap, lateExport, sdReturned, 
+                               expSD, exportedCycle, ffSnap, ffExported, ffOK, 
+                               ffRes, t, ns, snap, i, my, lp, budget, res, 
+                               timedout >>
 
 F_lock(self) == /\ pc[self] = "F_lock"
                 /\ ffm = -1
                 /\ ffm' = self
                 /\ pc' = [pc EXCEPT ![self] = "F_ticket"]
-                /\ UNCHANGED << pending, notified, forceWake, shutdown, latch, 
-                                ctxLock, wWaiting, wSignalled, fWaiting, 
-                                fSignalled, collGo, collDone, promiseReady, 
-                                cancel, workerDone, recorded, inExport, 
-                                overlap, lateExport, sdReturned, expSD, 
-                                exportedCycle, ffSnap, ffExported, ffOK, ffRes, 
-                                t, ns, snap, i, my, lp, budget, res, timedout >>
+                /\ UNCHANGED << pending, notified, cancelledSeq, forceWake, 
+                                shutdown, latch, ctxLock, wWaiting, wSignalled, 
+                                fWaiting, fSignalled, collGo, collDone, 
+                                promiseReady, cancel, workerDone, recorded, 
+                                inExport, overlap, lateExport, sdReturned, 
+                                expSD, exportedCycle, ffSnap, ffExported, ffOK, 
+                                ffRes, t, ns, snap, i, my, lp, budget, res, 
+                                timedout >>
 
 F_ticket(self) == /\ pc[self] = "F_ticket"
                   /\ pending' = pending + 1
                   /\ my' = [my EXCEPT ![self] = pending']
                   /\ pc' = [pc EXCEPT ![self] = "F_loop"]
-                  /\ UNCHANGED << notified, forceWake, shutdown, latch, ffm, 
-                                  ctxLock, wWaiting, wSignalled, fWaiting, 
-                                  fSignalled, collGo, collDone, promiseReady, 
-                                  cancel, workerDone, recorded, inExport, 
-                                  overlap, lateExport, sdReturned, expSD, 
-                                  exportedCycle, ffSnap, ffExported, ffOK, 
-                                  ffRes, t, ns, snap, i, lp, budget, res, 
+                  /\ UNCHANGED << notified, cancelledSeq, forceWake, shutdown, 
+                                  latch, ffm, ctxLock, wWaiting, wSignalled, 
+                                  fWaiting, fSignalled, collGo, collDone, 
+                                  promiseReady, cancel, workerDone, recorded, 
+                                  inExport, overlap, lateExport, sdReturned, 
+                                  expSD, exportedCycle, ffSnap, ffExported, 
+                                  ffOK, ffRes, t, ns, snap, i, lp, budget, res, 
                                   timedout >>
 
 F_loop(self) == /\ pc[self] = "F_loop"
@@ -530,13 +563,14 @@ F_loop(self) == /\ pc[self] = "F_loop"
                            /\ pc' = [pc EXCEPT ![self] = "BC1"]
                       ELSE /\ pc' = [pc EXCEPT ![self] = "F_expff"]
                            /\ UNCHANGED timedout
-                /\ UNCHANGED << pending, notified, forceWake, shutdown, latch, 
-                                ffm, ctxLock, wWaiting, wSignalled, fWaiting, 
-                                fSignalled, collGo, collDone, promiseReady, 
-                                cancel, workerDone, recorded, inExport, 
-                                overlap, lateExport, sdReturned, expSD, 
-                                exportedCycle, ffSnap, ffExported, ffOK, ffRes, 
-                                t, ns, snap, i, my, lp, budget, res >>
+                /\ UNCHANGED << pending, notified, cancelledSeq, forceWake, 
+                                shutdown, latch, ffm, ctxLock, wWaiting, 
+                                wSignalled, fWaiting, fSignalled, collGo, 
+                                collDone, promiseReady, cancel, workerDone, 
+                                recorded, inExport, overlap, lateExport, 
+                                sdReturned, expSD, exportedCycle, ffSnap, 
+                                ffExported, ffOK, ffRes, t, ns, snap, i, my, 
+                                lp, budget, res >>
 
 BC1(self) == /\ pc[self] = "BC1"
              /\ IF shutdown
@@ -544,44 +578,47 @@ BC1(self) == /\ pc[self] = "BC1"
                         /\ pc' = [pc EXCEPT ![self] = "F_eval"]
                    ELSE /\ pc' = [pc EXCEPT ![self] = "BC2"]
                         /\ res' = res
-             /\ UNCHANGED << pending, notified, forceWake, shutdown, latch, 
-                             ffm, ctxLock, wWaiting, wSignalled, fWaiting, 
-                             fSignalled, collGo, collDone, promiseReady, 
-                             cancel, workerDone, recorded, inExport, overlap, 
-                             lateExport, sdReturned, expSD, exportedCycle, 
-                             ffSnap, ffExported, ffOK, ffRes, t, ns, snap, i, 
-                             my, lp, budget, timedout >>
+             /\ UNCHANGED << pending, notified, cancelledSeq, forceWake, 
+                             shutdown, latch, ffm, ctxLock, wWaiting, 
+                             wSignalled, fWaiting, fSignalled, collGo, 
+                             collDone, promiseReady, cancel, workerDone, 
+                             recorded, inExport, overlap, lateExport, 
+                             sdReturned, expSD, exportedCycle, ffSnap, 
+                             ffExported, ffOK, ffRes, t, ns, snap, i, my, lp, 
+                             budget, timedout >>
 
 BC2(self) == /\ pc[self] = "BC2"
              /\ lp' = [lp EXCEPT ![self] = pending]
              /\ pc' = [pc EXCEPT ![self] = "BC3"]
-             /\ UNCHANGED << pending, notified, forceWake, shutdown, latch, 
-                             ffm, ctxLock, wWaiting, wSignalled, fWaiting, 
-                             fSignalled, collGo, collDone, promiseReady, 
-                             cancel, workerDone, recorded, inExport, overlap, 
-                             lateExport, sdReturned, expSD, exportedCycle, 
-                             ffSnap, ffExported, ffOK, ffRes, t, ns, snap, i, 
-                             my, budget, res, timedout >>
+             /\ UNCHANGED << pending, notified, cancelledSeq, forceWake, 
+                             shutdown, latch, ffm, ctxLock, wWaiting, 
+                             wSignalled, fWaiting, fSignalled, collGo, 
+                             collDone, promiseReady, cancel, workerDone, 
+                             recorded, inExport, overlap, lateExport, 
+                             sdReturned, expSD, exportedCycle, ffSnap, 
+                             ffExported, ffOK, ffRes, t, ns, snap, i, my, 
+                             budget, res, timedout >>
 
 BC3(self) == /\ pc[self] = "BC3"
              /\ IF lp[self] > notified
                    THEN /\ pc' = [pc EXCEPT ![self] = "BC4"]
                    ELSE /\ pc' = [pc EXCEPT ![self] = "BC6"]
-             /\ UNCHANGED << pending, notified, forceWake, shutdown, latch, 
-                             ffm, ctxLock, wWaiting, wSignalled, fWaiting, 
-                             fSignalled, collGo, collDone, promiseReady, 
-                             cancel, workerDone, recorded, inExport, overlap, 
-                             lateExport, sdReturned, expSD, exportedCycle, 
-                             ffSnap, ffExported, ffOK, ffRes, t, ns, snap, i, 
-                             my, lp, budget, res, timedout >>
+             /\ UNCHANGED << pending, notified, cancelledSeq, forceWake, 
+                             shutdown, latch, ffm, ctxLock, wWaiting, 
+                             wSignalled, fWaiting, fSignalled, collGo, 
+                             collDone, promiseReady, cancel, workerDone, 
+                             recorded, inExport, overlap, lateExport, 
+                             sdReturned, expSD, exportedCycle, ffSnap, 
+                             ffExported, ffOK, ffRes, t, ns, snap, i, my, lp, 
+                             budget, res, timedout >>
 
 BC4(self) == /\ pc[self] = "BC4"
              /\ forceWake' = TRUE
              /\ pc' = [pc EXCEPT ![self] = "BC5"]
-             /\ UNCHANGED << pending, notified, shutdown, latch, ffm, ctxLock, 
-                             wWaiting, wSignalled, fWaiting, fSignalled, 
-                             collGo, collDone, promiseReady, cancel, 
-                             workerDone, recorded, inExport, overlap, 
+             /\ UNCHANGED << pending, notified, cancelledSeq, shutdown, latch, 
+                             ffm, ctxLock, wWaiting, wSignalled, fWaiting, 
+                             fSignalled, collGo, collDone, promiseReady, 
+                             cancel, workerDone, recorded, inExport, overlap, 
                              lateExport, sdReturned, expSD, exportedCycle, 
                              ffSnap, ffExported, ffOK, ffRes, t, ns, snap, i, 
                              my, lp, budget, res, timedout >>
@@ -592,10 +629,10 @@ BC5(self) == /\ pc[self] = "BC5"
                    ELSE /\ TRUE
                         /\ UNCHANGED wSignalled
              /\ pc' = [pc EXCEPT ![self] = "BC6"]
-             /\ UNCHANGED << pending, notified, forceWake, shutdown, latch, 
-                             ffm, ctxLock, wWaiting, fWaiting, fSignalled, 
-                             collGo, collDone, promiseReady, cancel, 
-                             workerDone, recorded, inExport, overlap, 
+             /\ UNCHANGED << pending, notified, cancelledSeq, forceWake, 
+                             shutdown, latch, ffm, ctxLock, wWaiting, fWaiting, 
+                             fSignalled, collGo, collDone, promiseReady, 
+                             cancel, workerDone, recorded, inExport, overlap, 
                              lateExport, sdReturned, expSD, exportedCycle, 
                              ffSnap, ffExported, ffOK, ffRes, t, ns, snap, i, 
                              my, lp, budget, res, timedout >>
@@ -606,38 +643,41 @@ BC6(self) == /\ pc[self] = "BC6"
                         /\ pc' = [pc EXCEPT ![self] = "F_eval"]
                    ELSE /\ pc' = [pc EXCEPT ![self] = "BC7"]
                         /\ res' = res
-             /\ UNCHANGED << pending, notified, forceWake, shutdown, latch, 
-                             ffm, ctxLock, wWaiting, wSignalled, fWaiting, 
-                             fSignalled, collGo, collDone, promiseReady, 
-                             cancel, workerDone, recorded, inExport, overlap, 
-                             lateExport, sdReturned, expSD, exportedCycle, 
-                             ffSnap, ffExported, ffOK, ffRes, t, ns, snap, i, 
-                             my, lp, budget, timedout >>
+             /\ UNCHANGED << pending, notified, cancelledSeq, forceWake, 
+                             shutdown, latch, ffm, ctxLock, wWaiting, 
+                             wSignalled, fWaiting, fSignalled, collGo, 
+                             collDone, promiseReady, cancel, workerDone, 
+                             recorded, inExport, overlap, lateExport, 
+                             sdReturned, expSD, exportedCycle, ffSnap, 
+                             ffExported, ffOK, ffRes, t, ns, snap, i, my, lp, 
+                             budget, timedout >>
 
 BC7(self) == /\ pc[self] = "BC7"
              /\ IF timedout[self]
                    THEN /\ pc' = [pc EXCEPT ![self] = "F_eval"]
                    ELSE /\ pc' = [pc EXCEPT ![self] = "F_block"]
-             /\ UNCHANGED << pending, notified, forceWake, shutdown, latch, 
-                             ffm, ctxLock, wWaiting, wSignalled, fWaiting, 
-                             fSignalled, collGo, collDone, promiseReady, 
-                             cancel, workerDone, recorded, inExport, overlap, 
-                             lateExport, sdReturned, expSD, exportedCycle, 
-                             ffSnap, ffExported, ffOK, ffRes, t, ns, snap, i, 
-                             my, lp, budget, res, timedout >>
+             /\ UNCHANGED << pending, notified, cancelledSeq, forceWake, 
+                             shutdown, latch, ffm, ctxLock, wWaiting, 
+                             wSignalled, fWaiting, fSignalled, collGo, 
+                             collDone, promiseReady, cancel, workerDone, 
+                             recorded, inExport, overlap, lateExport, 
+                             sdReturned, expSD, exportedCycle, ffSnap, 
+                             ffExported, ffOK, ffRes, t, ns, snap, i, my, lp, 
+                             budget, res, timedout >>
 
 F_block(self) == /\ pc[self] = "F_block"
                  /\ ffm' = -1
                  /\ fWaiting' = (fWaiting \cup {self})
                  /\ fSignalled' = fSignalled \ {self}
                  /\ pc' = [pc EXCEPT ![self] = "F_wake"]
-                 /\ UNCHANGED << pending, notified, forceWake, shutdown, latch, 
-                                 ctxLock, wWaiting, wSignalled, collGo, 
-                                 collDone, promiseReady, cancel, workerDone, 
-                                 recorded, inExport, overlap, lateExport, 
-                                 sdReturned, expSD, exportedCycle, ffSnap, 
-                                 ffExported, ffOK, ffRes, t, ns, snap, i, my, 
-                                 lp, budget, res, timedout >>
+                 /\ UNCHANGED << pending, notified, cancelledSeq, forceWake, 
+                                 shutdown, latch, ctxLock, wWaiting, 
+                                 wSignalled, collGo, collDone, promiseReady, 
+                                 cancel, workerDone, recorded, inExport, 
+                                 overlap, lateExport, sdReturned, expSD, 
+                                 exportedCycle, ffSnap, ffExported, ffOK, 
+                                 ffRes, t, ns, snap, i, my, lp, budget, res, 
+                                 timedout >>
 
 F_wake(self) == /\ pc[self] = "F_wake"
                 /\ \/ /\ self \in fSignalled
@@ -647,26 +687,26 @@ F_wake(self) == /\ pc[self] = "F_wake"
                       /\ fSignalled' = fSignalled \ {self}
                       /\ timedout' = [timedout EXCEPT ![self] = TRUE]
                 /\ pc' = [pc EXCEPT ![self] = "F_relock"]
-                /\ UNCHANGED << pending, notified, forceWake, shutdown, latch, 
-                                ffm, ctxLock, wWaiting, wSignalled, collGo, 
-                                collDone, promiseReady, cancel, workerDone, 
-                                recorded, inExport, overlap, lateExport, 
-                                sdReturned, expSD, exportedCycle, ffSnap, 
-                                ffExported, ffOK, ffRes, t, ns, snap, i, my, 
-                                lp, budget, res >>
+                /\ UNCHANGED << pending, notified, cancelledSeq, forceWake, 
+                                shutdown, latch, ffm, ctxLock, wWaiting, 
+                                wSignalled, collGo, collDone, promiseReady, 
+                                cancel, workerDone, recorded, inExport, 
+                                overlap, lateExport, sdReturned, expSD, 
+                                exportedCycle, ffSnap, ffExported, ffOK, ffRes, 
+                                t, ns, snap, i, my, lp, budget, res >>
 
 F_relock(self) == /\ pc[self] = "F_relock"
                   /\ ffm = -1
                   /\ ffm' = self
                   /\ pc' = [pc EXCEPT ![self] = "BC1"]
-                  /\ UNCHANGED << pending, notified, forceWake, shutdown, 
-                                  latch, ctxLock, wWaiting, wSignalled, 
-                                  fWaiting, fSignalled, collGo, collDone, 
-                                  promiseReady, cancel, workerDone, recorded, 
-                                  inExport, overlap, lateExport, sdReturned, 
-                                  expSD, exportedCycle, ffSnap, ffExported, 
-                                  ffOK, ffRes, t, ns, snap, i, my, lp, budget, 
-                                  res, timedout >>
+                  /\ UNCHANGED << pending, notified, cancelledSeq, forceWake, 
+                                  shutdown, latch, ctxLock, wWaiting, 
+                                  wSignalled, fWaiting, fSignalled, collGo, 
+                                  collDone, promiseReady, cancel, workerDone, 
+                                  recorded, inExport, overlap, lateExport, 
+                                  sdReturned, expSD, exportedCycle, ffSnap, 
+                                  ffExported, ffOK, ffRes, t, ns, snap, i, my, 
+                                  lp, budget, res, timedout >>
 
 F_eval(self) == /\ pc[self] = "F_eval"
                 /\ IF timedout[self] /\ budget[self] # Inf
@@ -674,13 +714,14 @@ F_eval(self) == /\ pc[self] = "F_eval"
                       ELSE /\ TRUE
                            /\ UNCHANGED budget
                 /\ pc' = [pc EXCEPT ![self] = "F_loop"]
-                /\ UNCHANGED << pending, notified, forceWake, shutdown, latch, 
-                                ffm, ctxLock, wWaiting, wSignalled, fWaiting, 
-                                fSignalled, collGo, collDone, promiseReady, 
-                                cancel, workerDone, recorded, inExport, 
-                                overlap, lateExport, sdReturned, expSD, 
-                                exportedCycle, ffSnap, ffExported, ffOK, ffRes, 
-                                t, ns, snap, i, my, lp, res, timedout >>
+                /\ UNCHANGED << pending, notified, cancelledSeq, forceWake, 
+                                shutdown, latch, ffm, ctxLock, wWaiting, 
+                                wSignalled, fWaiting, fSignalled, collGo, 
+                                collDone, promiseReady, cancel, workerDone, 
+                                recorded, inExport, overlap, lateExport, 
+                                sdReturned, expSD, exportedCycle, ffSnap, 
+                                ffExported, ffOK, ffRes, t, ns, snap, i, my, 
+                                lp, res, timedout >>
 
 F_expff(self) == /\ pc[self] = "F_expff"
                  /\ IF res[self] /\ (budget[self] # 0)
@@ -691,37 +732,38 @@ F_expff(self) == /\ pc[self] = "F_expff"
                        ELSE /\ res' = [res EXCEPT ![self] = FALSE]
                             /\ ffOK' = ffOK
                  /\ pc' = [pc EXCEPT ![self] = "F_ret"]
-                 /\ UNCHANGED << pending, notified, forceWake, shutdown, latch, 
-                                 ffm, ctxLock, wWaiting, wSignalled, fWaiting, 
-                                 fSignalled, collGo, collDone, promiseReady, 
-                                 cancel, workerDone, recorded, inExport, 
-                                 overlap, lateExport, sdReturned, expSD, 
-                                 exportedCycle, ffSnap, ffExported, ffRes, t, 
-                                 ns, snap, i, my, lp, budget, timedout >>
+                 /\ UNCHANGED << pending, notified, cancelledSeq, forceWake, 
+                                 shutdown, latch, ffm, ctxLock, wWaiting, 
+                                 wSignalled, fWaiting, fSignalled, collGo, 
+                                 collDone, promiseReady, cancel, workerDone, 
+                                 recorded, inExport, overlap, lateExport, 
+                                 sdReturned, expSD, exportedCycle, ffSnap, 
+                                 ffExported, ffRes, t, ns, snap, i, my, lp, 
+                                 budget, timedout >>
 
 F_ret(self) == /\ pc[self] = "F_ret"
-               /\ ffRes' = [ffRes EXCEPT ![self] = IF res[self] /\ notified >= my[self] THEN "true" ELSE "false"]
+               /\ ffRes' = [ffRes EXCEPT ![self] = IF res[self] /\ notified >= my[self] /\ (Dev # {} \/ cancelledSeq < my[self]) THEN "true" ELSE "false"]
                /\ ffm' = -1
                /\ pc' = [pc EXCEPT ![self] = "F_unctx"]
-               /\ UNCHANGED << pending, notified, forceWake, shutdown, latch, 
-                               ctxLock, wWaiting, wSignalled, fWaiting, 
-                               fSignalled, collGo, collDone, promiseReady, 
-                               cancel, workerDone, recorded, inExport, overlap, 
-                               lateExport, sdReturned, expSD, exportedCycle, 
-                               ffSnap, ffExported, ffOK, t, ns, snap, i, my, 
-                               lp, budget, res, timedout >>
+               /\ UNCHANGED << pending, notified, cancelledSeq, forceWake, 
+                               shutdown, latch, ctxLock, wWaiting, wSignalled, 
+                               fWaiting, fSignalled, collGo, collDone, 
+                               promiseReady, cancel, workerDone, recorded, 
+                               inExport, overlap, lateExport, sdReturned, 
+                               expSD, exportedCycle, ffSnap, ffExported, ffOK, 
+                               t, ns, snap, i, my, lp, budget, res, timedout >>
 
 F_unctx(self) == /\ pc[self] = "F_unctx"
                  /\ ctxLock' = -1
                  /\ pc' = [pc EXCEPT ![self] = "Done"]
-                 /\ UNCHANGED << pending, notified, forceWake, shutdown, latch, 
-                                 ffm, wWaiting, wSignalled, fWaiting, 
-                                 fSignalled, collGo, collDone, promiseReady, 
-                                 cancel, workerDone, recorded, inExport, 
-                                 overlap, lateExport, sdReturned, expSD, 
-                                 exportedCycle, ffSnap, ffExported, ffOK, 
-                                 ffRes, t, ns, snap, i, my, lp, budget, res, 
-                                 timedout >>
+                 /\ UNCHANGED << pending, notified, cancelledSeq, forceWake, 
+                                 shutdown, latch, ffm, wWaiting, wSignalled, 
+                                 fWaiting, fSignalled, collGo, collDone, 
+                                 promiseReady, cancel, workerDone, recorded, 
+                                 inExport, overlap, lateExport, sdReturned, 
+                                 expSD, exportedCycle, ffSnap, ffExported, 
+                                 ffOK, ffRes, t, ns, snap, i, my, lp, budget, 
+                                 res, timedout >>
 
 flush(self) == F_call(self) \/ F_ctx(self) \/ F_lock(self)
                   \/ F_ticket(self) \/ F_loop(self) \/ BC1(self)
@@ -736,25 +778,26 @@ S_latch(self) == /\ pc[self] = "S_latch"
                             /\ latch' = latch
                        ELSE /\ latch' = TRUE
                             /\ pc' = [pc EXCEPT ![self] = "S_set"]
-                 /\ UNCHANGED << pending, notified, forceWake, shutdown, ffm, 
-                                 ctxLock, wWaiting, wSignalled, fWaiting, 
-                                 fSignalled, collGo, collDone, promiseReady, 
-                                 cancel, workerDone, recorded, inExport, 
-                                 overlap, lateExport, sdReturned, expSD, 
-                                 exportedCycle, ffSnap, ffExported, ffOK, 
-                                 ffRes, t, ns, snap, i, my, lp, budget, res, 
-                                 timedout >>
+                 /\ UNCHANGED << pending, notified, cancelledSeq, forceWake, 
+                                 shutdown, ffm, ctxLock, wWaiting, wSignalled, 
+                                 fWaiting, fSignalled, collGo, collDone, 
+                                 promiseReady, cancel, workerDone, recorded, 
+                                 inExport, overlap, lateExport, sdReturned, 
+                                 expSD, exportedCycle, ffSnap, ffExported, 
+                                 ffOK, ffRes, t, ns, snap, i, my, lp, budget, 
+                                 res, timedout >>
 
 S_set(self) == /\ pc[self] = "S_set"
                /\ shutdown' = TRUE
                /\ pc' = [pc EXCEPT ![self] = "S_notify"]
-               /\ UNCHANGED << pending, notified, forceWake, latch, ffm, 
-                               ctxLock, wWaiting, wSignalled, fWaiting, 
-                               fSignalled, collGo, collDone, promiseReady, 
-                               cancel, workerDone, recorded, inExport, overlap, 
-                               lateExport, sdReturned, expSD, exportedCycle, 
-                               ffSnap, ffExported, ffOK, ffRes, t, ns, snap, i, 
-                               my, lp, budget, res, timedout >>
+               /\ UNCHANGED << pending, notified, cancelledSeq, forceWake, 
+                               latch, ffm, ctxLock, wWaiting, wSignalled, 
+                               fWaiting, fSignalled, collGo, collDone, 
+                               promiseReady, cancel, workerDone, recorded, 
+                               inExport, overlap, lateExport, sdReturned, 
+                               expSD, exportedCycle, ffSnap, ffExported, ffOK, 
+                               ffRes, t, ns, snap, i, my, lp, budget, res, 
+                               timedout >>
 
 S_notify(self) == /\ pc[self] = "S_notify"
                   /\ IF wWaiting
@@ -762,58 +805,61 @@ S_notify(self) == /\ pc[self] = "S_notify"
                         ELSE /\ TRUE
                              /\ UNCHANGED wSignalled
                   /\ pc' = [pc EXCEPT ![self] = "S_join"]
-                  /\ UNCHANGED << pending, notified, forceWake, shutdown, 
-                                  latch, ffm, ctxLock, wWaiting, fWaiting, 
-                                  fSignalled, collGo, collDone, promiseReady, 
-                                  cancel, workerDone, recorded, inExport, 
-                                  overlap, lateExport, sdReturned, expSD, 
-                                  exportedCycle, ffSnap, ffExported, ffOK, 
-                                  ffRes, t, ns, snap, i, my, lp, budget, res, 
-                                  timedout >>
+                  /\ UNCHANGED << pending, notified, cancelledSeq, forceWake, 
+                                  shutdown, latch, ffm, ctxLock, wWaiting, 
+                                  fWaiting, fSignalled, collGo, collDone, 
+                                  promiseReady, cancel, workerDone, recorded, 
+                                  inExport, overlap, lateExport, sdReturned, 
+                                  expSD, exportedCycle, ffSnap, ffExported, 
+                                  ffOK, ffRes, t, ns, snap, i, my, lp, budget, 
+                                  res, timedout >>
 
 S_join(self) == /\ pc[self] = "S_join"
                 /\ workerDone
                 /\ pc' = [pc EXCEPT ![self] = "S_exp"]
-                /\ UNCHANGED << pending, notified, forceWake, shutdown, latch, 
-                                ffm, ctxLock, wWaiting, wSignalled, fWaiting, 
-                                fSignalled, collGo, collDone, promiseReady, 
-                                cancel, workerDone, recorded, inExport, 
-                                overlap, lateExport, sdReturned, expSD, 
-                                exportedCycle, ffSnap, ffExported, ffOK, ffRes, 
-                                t, ns, snap, i, my, lp, budget, res, timedout >>
+                /\ UNCHANGED << pending, notified, cancelledSeq, forceWake, 
+                                shutdown, latch, ffm, ctxLock, wWaiting, 
+                                wSignalled, fWaiting, fSignalled, collGo, 
+                                collDone, promiseReady, cancel, workerDone, 
+                                recorded, inExport, overlap, lateExport, 
+                                sdReturned, expSD, exportedCycle, ffSnap, 
+                                ffExported, ffOK, ffRes, t, ns, snap, i, my, 
+                                lp, budget, res, timedout >>
 
 S_exp(self) == /\ pc[self] = "S_exp"
                /\ expSD' = expSD + 1
                /\ pc' = [pc EXCEPT ![self] = "S_ret"]
-               /\ UNCHANGED << pending, notified, forceWake, shutdown, latch, 
-                               ffm, ctxLock, wWaiting, wSignalled, fWaiting, 
-                               fSignalled, collGo, collDone, promiseReady, 
-                               cancel, workerDone, recorded, inExport, overlap, 
-                               lateExport, sdReturned, exportedCycle, ffSnap, 
-                               ffExported, ffOK, ffRes, t, ns, snap, i, my, lp, 
-                               budget, res, timedout >>
+               /\ UNCHANGED << pending, notified, cancelledSeq, forceWake, 
+                               shutdown, latch, ffm, ctxLock, wWaiting, 
+                               wSignalled, fWaiting, fSignalled, collGo, 
+                               collDone, promiseReady, cancel, workerDone, 
+                               recorded, inExport, overlap, lateExport, 
+                               sdReturned, exportedCycle, ffSnap, ffExported, 
+                               ffOK, ffRes, t, ns, snap, i, my, lp, budget, 
+                               res, timedout >>
 
 S_ret(self) == /\ pc[self] = "S_ret"
                /\ sdReturned' = TRUE
                /\ pc' = [pc EXCEPT ![self] = "S_done"]
-               /\ UNCHANGED << pending, notified, forceWake, shutdown, latch, 
-                               ffm, ctxLock, wWaiting, wSignalled, fWaiting, 
-                               fSignalled, collGo, collDone, promiseReady, 
-                               cancel, workerDone, recorded, inExport, overlap, 
-                               lateExport, expSD, exportedCycle, ffSnap, 
-                               ffExported, ffOK, ffRes, t, ns, snap, i, my, lp, 
-                               budget, res, timedout >>
+               /\ UNCHANGED << pending, notified, cancelledSeq, forceWake, 
+                               shutdown, latch, ffm, ctxLock, wWaiting, 
+                               wSignalled, fWaiting, fSignalled, collGo, 
+                               collDone, promiseReady, cancel, workerDone, 
+                               recorded, inExport, overlap, lateExport, expSD, 
+                               exportedCycle, ffSnap, ffExported, ffOK, ffRes, 
+                               t, ns, snap, i, my, lp, budget, res, timedout >>
 
 S_done(self) == /\ pc[self] = "S_done"
                 /\ TRUE
                 /\ pc' = [pc EXCEPT ![self] = "Done"]
-                /\ UNCHANGED << pending, notified, forceWake, shutdown, latch, 
-                                ffm, ctxLock, wWaiting, wSignalled, fWaiting, 
-                                fSignalled, collGo, collDone, promiseReady, 
-                                cancel, workerDone, recorded, inExport, 
-                                overlap, lateExport, sdReturned, expSD, 
-                                exportedCycle, ffSnap, ffExported, ffOK, ffRes, 
-                                t, ns, snap, i, my, lp, budget, res, timedout >>
+                /\ UNCHANGED << pending, notified, cancelledSeq, forceWake, 
+                                shutdown, latch, ffm, ctxLock, wWaiting, 
+                                wSignalled, fWaiting, fSignalled, collGo, 
+                                collDone, promiseReady, cancel, workerDone, 
+                                recorded, inExport, overlap, lateExport, 
+                                sdReturned, expSD, exportedCycle, ffSnap, 
+                                ffExported, ffOK, ffRes, t, ns, snap, i, my, 
+                                lp, budget, res, timedout >>
 
 shut(self) == S_latch(self) \/ S_set(self) \/ S_notify(self)
                  \/ S_join(self) \/ S_exp(self) \/ S_ret(self)
